@@ -222,6 +222,54 @@ func c09One(o *out, e influxql.Expr, rho1, rho2 map[string]interface{}, tag stri
 		}
 		o.fail(class, fmt.Sprintf("Eval(Reduce(%s, %v), %v) = %v but Eval(%s, all) = %v", text, rho1, rho2, v1, text, v2), rp)
 	}
+	// the stated convention: division or modulo by zero is zero, for every numeric kind
+	if b, ok := e.(*influxql.BinaryExpr); ok && (b.Op == influxql.DIV || b.Op == influxql.MOD) {
+		num := func(x influxql.Expr) (float64, bool, bool) { // value, is float, known
+			var v interface{}
+			switch x := x.(type) {
+			case *influxql.VarRef:
+				v = all[x.Val]
+			case *influxql.IntegerLiteral:
+				v = x.Val
+			case *influxql.UnsignedLiteral:
+				v = x.Val
+			case *influxql.NumberLiteral:
+				v = x.Val
+			}
+			switch v := v.(type) {
+			case int64:
+				return float64(v), false, true
+			case uint64:
+				return float64(v), false, true
+			case float64:
+				return v, true, true
+			}
+			return 0, false, false
+		}
+		lv, lf, lok := num(b.LHS)
+		rv, rf, rok := num(b.RHS)
+		if lok && rok && rv == 0 && !math.IsNaN(lv) {
+			isZero := func(v interface{}) bool {
+				switch v := v.(type) {
+				case int64:
+					return v == 0
+				case uint64:
+					return v == 0
+				case float64:
+					return v == 0
+				}
+				return false
+			}
+			o.checked()
+			if !isZero(v2) || !isZero(v1) {
+				class := ""
+				if b.Op == influxql.MOD && (lf || rf) {
+					class = "C09-float-mod-zero"
+				}
+				o.fail(class, fmt.Sprintf("%s with a zero right operand evaluates to %v (after Reduce: %v), not to zero", text, v2, v1), rp)
+			}
+		}
+	}
 	// idempotence
 	r2, pn3 := reduceWith(r, rho1)
 	if pn3 != nil {
